@@ -777,13 +777,20 @@ func c13_5(c *core.Ctx, p *core.Prog) {
 		if f.Signature.Recv() == nil || core.TypeName(f.Signature.Recv().Type()) != "DictionaryField" {
 			continue
 		}
-		n := 0
+		// requests made here or in the small same-type helpers this method calls (`t.requestReset()`, `t.overflow(…)`);
+		// a helper that only requests is not the update function itself
+		n, branches := 0, 0
+		for _, b := range f.Blocks {
+			if core.IfOf(b) != nil {
+				branches++
+			}
+		}
 		core.EachCall(f, func(ci ssa.CallInstruction) {
-			if o := core.CalleeObj(ci); o != nil && o.Name() == "Inc" {
+			if dictRequests(ci, f, 0) {
 				n++
 			}
 		})
-		if n >= 2 {
+		if n >= 2 && branches >= 2 {
 			fn = f
 		}
 	}
@@ -795,6 +802,7 @@ func c13_5(c *core.Ctx, p *core.Prog) {
 	// the advance loop: store currentIndex = currentIndex + 1 guarded by cardinality > indexMaxCard[currentIndex]
 	var cardCmp *ssa.BinOp
 	var lastIf *ssa.If
+	pastOnTrue := true
 	for _, b := range fn.Blocks {
 		iff := core.IfOf(b)
 		if iff == nil {
@@ -807,10 +815,16 @@ func c13_5(c *core.Ctx, p *core.Prog) {
 		if fa := core.LoadedField(cmp.X); fa != nil && core.FieldName(fa) == "cardinality" {
 			cardCmp = cmp
 		}
-		if cmp.Op == token.GEQ {
+		// `if idx >= len(tbl) { past the last width }` or the guard-clause form `if idx < len(tbl) { …; return }`
+		if cmp.Op == token.GEQ || cmp.Op == token.LSS {
 			if fa := core.LoadedField(cmp.X); fa != nil {
 				if _, _, okL := core.LenOf(cmp.Y); okL {
-					lastIf = iff
+					// not the bound test of the advance loop itself (`for idx < len(tbl) && card > cap[idx] { idx++ }`)
+					inLoop := core.Reachable(fn, b.Succs[0].Instrs[0], iff) || core.Reachable(fn, b.Succs[1].Instrs[0], iff)
+					if !inLoop || cmp.Op == token.GEQ {
+						lastIf = iff
+						pastOnTrue = cmp.Op == token.GEQ
+					}
 				}
 			}
 		}
@@ -848,13 +862,13 @@ func c13_5(c *core.Ctx, p *core.Prog) {
 		disabled, clamped := false, false
 		core.EachInstr(fn, func(i ssa.Instruction) {
 			ins, _ := i.(ssa.Instruction)
-			if !core.GuardedBy(lastIf, true, ins) {
+			if !core.GuardedBy(lastIf, pastOnTrue, ins) {
 				return
 			}
-			if cl, ok := i.(*ssa.Call); ok && core.CalleeObj(cl) != nil && core.CalleeObj(cl).Name() == "Inc" {
+			if cl, ok := i.(ssa.CallInstruction); ok && dictRequests(cl, fn, 0) {
 				incs++
 			}
-			if s, ok := i.(*ssa.Store); ok {
+			storeEv := func(s *ssa.Store) {
 				if fa, ok := s.Addr.(*ssa.FieldAddr); ok {
 					if _, isSl := core.FieldVar(fa).Type().Underlying().(*types.Slice); isSl && core.IsNilConst(s.Val) {
 						disabled = true
@@ -864,6 +878,19 @@ func c13_5(c *core.Ctx, p *core.Prog) {
 							clamped = true
 						}
 					}
+				}
+			}
+			if s, ok := i.(*ssa.Store); ok {
+				storeEv(s)
+			}
+			// … or in a same-type helper called under the test
+			if cl, ok := i.(*ssa.Call); ok {
+				if h := cl.Call.StaticCallee(); h != nil && h != fn && len(h.Blocks) > 0 && h.Signature.Recv() != nil && fn.Signature.Recv() != nil && types.Identical(h.Signature.Recv().Type(), fn.Signature.Recv().Type()) {
+					core.EachInstr(h, func(j ssa.Instruction) {
+						if s, ok := j.(*ssa.Store); ok {
+							storeEv(s)
+						}
+					})
 				}
 			}
 		})
@@ -878,10 +905,14 @@ func c13_5(c *core.Ctx, p *core.Prog) {
 		}
 		// no path past the last width leaves without a request
 		isInc := func(i ssa.Instruction) bool {
-			cl, ok := i.(*ssa.Call)
-			return ok && core.CalleeObj(cl) != nil && core.CalleeObj(cl).Name() == "Inc"
+			cl, ok := i.(ssa.CallInstruction)
+			return ok && dictRequests(cl, fn, 0)
 		}
-		first := lastIf.Block().Succs[0].Instrs[0]
+		pastEdge := 0
+		if !pastOnTrue {
+			pastEdge = 1
+		}
+		first := lastIf.Block().Succs[pastEdge].Instrs[0]
 		if !isInc(first) {
 			if ok, _ := (core.PathQuery{Fn: fn, From: first, Avoid: isInc, ExitReturnOnly: true}).Exists(); ok {
 				msgs = append(msgs, "a path past the last allowed width neither resets nor disables the dictionary: it keeps growing beyond the limit")
@@ -1259,4 +1290,20 @@ func scanColumnArg(cl *ssa.Call) ssa.Value {
 		}
 	}
 	return cl.Call.Args[len(cl.Call.Args)-1]
+}
+
+// dictRequests: the call is a schema-update request (Inc), or a call of a same-type helper of host every path of
+// which makes one.
+func dictRequests(ci ssa.CallInstruction, host *ssa.Function, depth int) bool {
+	if o := core.CalleeObj(ci); o != nil && o.Name() == "Inc" {
+		return true
+	}
+	h := ci.Common().StaticCallee()
+	if h == nil || h == host || len(h.Blocks) == 0 || depth > 1 || h.Signature.Recv() == nil || host.Signature.Recv() == nil || !types.Identical(h.Signature.Recv().Type(), host.Signature.Recv().Type()) {
+		return false
+	}
+	return core.MustPassBetween(h, nil, nil, func(i ssa.Instruction) bool {
+		cj, ok := i.(ssa.CallInstruction)
+		return ok && dictRequests(cj, h, depth+1)
+	})
 }
